@@ -463,5 +463,15 @@ func gen(r *vgen.Rng, tier string) []Case {
 	for ; nSeq > 0; nSeq-- {
 		mixed = append(mixed, genSeq(r))
 	}
+	// several goroutines on one set of long-lived handler objects (conc.go); drawn from their own stream so that
+	// the cases above stay what they were
+	nConc, calls := 36, 16000
+	if tier == "thorough" {
+		nConc, calls = 360, 60000
+	}
+	rc := vgen.NewRng(r.U64())
+	for k := 0; k < nConc; k++ {
+		mixed = append(mixed, genConc(rc, k, calls))
+	}
 	return mixed
 }
